@@ -50,11 +50,13 @@ IN_PLACE = {"fold_constants", "fold_constants_infer", "remove_unused_nodes", "re
 EXCL = [("ir_version=9", "ir_version=13"), ("model_version", "model_version=0"),
         ("external_data", "external_data.offset_length", "external_data.checksum"),
         ("value_info.symbolic", "value_info.no_shape", "value_info.denotation"),
-        ("quantization_annotation", "quantization_annotation.initializer")]
+        ("quantization_annotation", "quantization_annotation.initializer"),
+        # FunctionProto.value_info exists from IR version 10 on: with ir_version 9 the model is not well-formed
+        ("ir_version=9", "value_info.function")]
 _EXCL_OF = {}
 for grp in EXCL:
     for a in grp:
-        _EXCL_OF[a] = set(grp) - {a}
+        _EXCL_OF.setdefault(a, set()).update(set(grp) - {a})
 
 _VARIANTS = None
 
@@ -329,14 +331,59 @@ def _viol(kind, api, where, detail, component=None):
     return {"key": f"C15|{kind}|{comp}|{where}", "detail": detail}
 
 
+def _payload_check(tensor, init):
+    """Read the deserialized tensor back (numpy(), tobytes()) and compare with the bit patterns it was built from."""
+    import numpy as np
+    dtype, payload, _ = init
+    dims, vals, w, raw = MZ.expected_payload(dtype, payload)
+    try:
+        arr = tensor.numpy()
+        if list(arr.shape) != list(dims):
+            return f"numpy() shape {list(arr.shape)} != dims {dims}"
+        if dtype == "STRING":
+            # string_data() is the exact accessor; numpy() goes through a fixed-width 'S' array, which cannot
+            # represent trailing NUL bytes - that view is outside the statement and only counted
+            got = [bytes(x) for x in tensor.string_data()]
+            if got != list(vals):
+                return f"string_data() {got!r} != {vals!r}"
+            if [bytes(x) for x in arr.ravel().tolist()] != list(vals):
+                return "numpy-view"
+            return None
+        tb = tensor.tobytes()
+        if tb != raw:
+            return f"tobytes() {tb.hex()} != {raw.hex()}"
+        if w >= 8:
+            nb = np.ascontiguousarray(arr).tobytes()
+            if nb != raw:
+                return f"numpy() bits {nb.hex()} != {raw.hex()}"
+        else:
+            got = [int(x) & ((1 << w) - 1) for x in np.ascontiguousarray(arr).view(np.uint8).ravel().tolist()]
+            if got != [v & ((1 << w) - 1) for v in vals]:
+                return f"numpy() elements {got} != {vals}"
+    except Exception as e:  # noqa: BLE001
+        return f"reading the tensor raises {type(e).__name__}: {e}"
+    return None
+
+
 def _serde_leaf(M, item, nkey):
     from onnxscript import ir
     viols = []
     counts = {}
     try:
-        N1 = ir.serde.serialize_model(ir.serde.deserialize_model(_copy(M)))
+        model_ir = ir.serde.deserialize_model(_copy(M))
+        N1 = ir.serde.serialize_model(model_ir)
     except Exception as e:  # noqa: BLE001
         return {"status": "skip", "skip": f"serde-refused:{type(e).__name__}", "outcome": "serde-refused", "nkey": nkey}
+    if item["init"]:
+        # the deserialized initializer denotes the same payload whichever storage the proto used
+        bad = _payload_check(model_ir.graph.initializers["k"].const_value, item["init"])
+        counts["payload_read_back"] = 1
+        if bad == "numpy-view":
+            counts["string_numpy_view_differs"] = 1
+        elif bad:
+            d, p, s = item["init"]
+            viols.append(_viol("serde-loss", "serde", f"initializer.payload({d},{s})", {"payload": p, "what": bad},
+                               "component=onnx_ir"))
     N2 = ir.serde.serialize_model(ir.serde.deserialize_model(_copy(N1)))
     inits = {t.name for t in M.graph.initializer}
     unstable = set()
@@ -368,7 +415,8 @@ def _serde_leaf(M, item, nkey):
     counts["serde_defaults_vanished"] = vanished
     counts["serde_exact"] = int(D.canon(M) == D.canon(N1))
     out = "serde-exact" if D.canon(M) == D.canon(N1) else ("serde-normalised" if not viols else "serde-diff")
-    return {"status": "viol" if viols else "ok", "outcome": out, "viols": viols, "nkey": nkey, "counts": counts}
+    return {"status": "viol" if viols else "ok", "outcome": out, "viols": viols, "nkey": nkey, "counts": counts,
+            "show": f"serde round trip of base={item['base']} carriers={item['carriers']} initializer={item['init']}"}
 
 
 def execute(item):
